@@ -69,7 +69,7 @@ def main():
                                       'expected': 'zeros with n1=ceil(x4)=%d n2=ceil(2*x4)=%d' % (n1e, n2e)})
             continue
         for regime in REGIMES:
-            T = rng.choice(lengths)
+            T = draw_length(rng, lengths)
             rain, pet = forcing(rng, regime, T, zero_pet=(rng.random() < 0.15))
             st0 = list(si)
             if rng.random() < 0.6:              # arbitrary initial stores of the right shape
@@ -188,7 +188,7 @@ def main():
                       'sum_runoff_impl': sum(got_q), 'sum_runoff_published': sum(ref_q)})
     c.cov['rule'] = ('x4 swept over a grid of step %s plus both sides (0, +-1e-12, +-1e-9, +-1e-4, +-0.01) of every integer and half-integer in [0.5,4] '
                      '(every unit-hydrograph length class (n1,n2)); x1,x2,x3 from the documented ranges (interior, log-uniform, end points); '
-                     'forcing from the five regimes, T in {1,2,7,40,120,400}; initial stores either the model\'s own InitialiseStates or arbitrary '
+                     'forcing from the five regimes, T in {1,2,7,40,120,400} or, with probability 0.2, a block-boundary length (63..65, 127..129, 255..257, 511..513, 768, 1024), joint degenerate steps (rain = PET = 0, PET = 0 on wet days, plateaus) written over 60 %% of the series; initial stores either the model\'s own InitialiseStates or arbitrary '
                      'S in [0,x1], R in [0,x3], UH stores in [0,30]; each case run through sim.Catalog, through the extracted Coq kernel (rtol 1e-9, atol 1e-12*scale, scale = 1 + largest parameter/initial store/daily rain) '
                      'and through an independent float64 implementation of the published equations (S-curve functions, convolution routing) '
                      'compared at rtol 1e-9 / atol max(1e-10 mm, 1e-10*scale) on every runoff value and every final store; plus a malformed stream (state-vector lengths not matching ceil(x4), short/over-long vectors, n1=0, x4 outside the range) compared model-vs-code only; non-trivial = some rain or non-empty UH stores; distinct = distinct (parameters, initial states, series)'
